@@ -170,6 +170,11 @@ def structural_probes():
         ("brier_score p=1+eps (one element)", lambda: P.brier_score(p + xr.DataArray([0, 0, 1e-9], dims="x"), pb), "rej"),
         ("brier_score p=-eps (one element)", lambda: P.brier_score(p - xr.DataArray([1e-9, 0, 0], dims="x"), pb), "rej"),
         ("brier_score non-binary obs", lambda: P.brier_score(p, p), "rej"),
+        ("brier_score p=-1e-17 (one element)", lambda: P.brier_score(p - xr.DataArray([1e-17, 0, 0], dims="x"), pb), "rej"),
+        ("brier_score p=-1e-300 (one element)", lambda: P.brier_score(p - xr.DataArray([1e-300, 0, 0], dims="x"), pb), "rej"),
+        ("brier_score p=0.3-3*0.1 (one element)", lambda: P.brier_score(xr.DataArray([0.3 - 3 * 0.1, 0.5, 1.0], dims="x"), pb), "rej"),
+        ("brier_score p=1+2.3e-16 (one element)", lambda: P.brier_score(xr.DataArray([0.0, 0.5, 1.0 + 2.3e-16], dims="x"), pb), "rej"),
+        ("roc_curve_data p=-1e-300 (one element)", lambda: P.roc_curve_data(p - xr.DataArray([1e-300, 0, 0], dims="x"), pb, [0, 0.5, 1]), "rej"),
         ("roc thresholds 1+eps", lambda: P.roc_curve_data(p, pb, [0, 1 + 1e-9]), "rej"),
         ("roc thresholds decreasing", lambda: P.roc_curve_data(p, pb, [0.5, 0.2]), "rej"),
         ("roc thresholds equal", lambda: P.roc_curve_data(p, pb, [0.5, 0.5]), "ok"),
